@@ -21,9 +21,13 @@ def live(seed, k, tier):
                        {"t": "PEG", "amt": 200 * 10**8, "conv": "pDCR"}])
     s.grade(h); h += 1
     zero_dcr_at = rnd.choice([B + 1, B + 2]) + 1
-    while h <= pip + 4:
+    # after PIP-10: pXBT zero-rated for three rated heights in a row (AveragePeriod 4, at least 2 usable values required), so that
+    # at the next heights its rate is back while its average is still unavailable: conversions into and out of it must be refused
+    # (and leave balances untouched) until two non-zero rates are in the window again
+    zrun = (pip + 5, pip + 6, pip + 7)
+    while h <= pip + 10:
         # a zero rate (OPR outside the 25% band of the SPR) for pDCR / pXBT at one height after 2.0.2
-        if h == zero_dcr_at:
+        if h == zero_dcr_at or h in zrun:
             s.grade(h, rates={"pXBT": scen.RATES["pXBT"] * 2}, spr_rates={"pXBT": scen.RATES["pXBT"]})
         else:
             s.grade(h)
@@ -32,6 +36,11 @@ def live(seed, k, tier):
                 src = rnd.choice(CLS)
                 dst = rnd.choice([c for c in CLS if c != src])
                 s.convert(h, u, src, rnd.choice([1000, 10**6, 3 * 10**8]), dst, track=False)
+        if h >= pip + 4:
+            # directed probes (own batches, small amounts, funded): into / out of the asset whose average is unavailable, and a control pair
+            for (u, src, dst) in ((users[0], "pUSD", "pXBT"), (users[1], "pXBT", "pUSD"), (users[2], "PEG", "pXBT"), (users[3], "pUSD", "pDCR" if h < B else "PEG")):
+                if not (dst == "PEG"):
+                    s.convert(h, u, src, 1000 + h, dst, track=False)
         h += 1
     s.grade(h); s.tip(h)
     return s
